@@ -35,6 +35,72 @@ Readings of ambiguous English (weaker reading taken, see README "Findings policy
     entries are location/offset/length with canonical integers, IR version 3..13, device configurations
     only at IR >= 11, function value_info only at IR >= 10, no sparse tensors/initializers, no map/opaque
     types, no training_info, no TensorProto.segment.
+
+LOG (kept current)
+
+Theorems (coq/theories/C02/Property.v, all "Closed under the global context"):
+  C02_dims_denotations      forall d, ser_dim (deser_dim d) = norm_dim d                         (full, all dims)
+  C02_types_nested          wf_type t -> type/shape deserialize and norm (ser) = norm t          (full, any nesting)
+  C02_tensor_fields         wf_tensor t -> roundtrip_tensor t = Ok q /\ norm q = norm t          (full; proto-backed,
+                            external [location/offset/length in any order, canonical ints], string tensors; Proofs2
+                            also proves the initializer renaming `const_value.name = value.name`)
+  C02_value_info            wf_vinfo vi -> roundtrip ok and norm-equal                            (full)
+  C02_attrs_all_kinds       every attribute kind but sparse + reference attributes, relative to the round trip of
+                            nested graphs (hypothesis Hg, to be discharged by the graph stage)
+  C02_attrs_flat            unconditional corollary: attributes whose graph values are empty graphs, with the real
+                            deser_graph/ser_graph (shows Hg is satisfiable)
+  C02_node_scoping          a node in a scope stack: scoped input resolution under the invariant key = value name,
+                            optional inputs, trailing outputs, ai.onnx alias, attribute dictionary, metadata, device
+                            configurations gated on the IR version; the name table is unchanged        (relative to Hg)
+  C02_metadata_every_carrier  unique-key dictionaries written back sorted = sorted original
+  C02_roundtrip_partial     the conjunction for TensorProto / ValueInfoProto / TypeProto
+  C02_external_checksum_refuted  the model reproduces the recorded finding (witness by computation)
+  MISSING (principal theorem C02_roundtrip is therefore partial, ck.level = translation_validation):
+  graph/scoping stage (initializer loop incl. "initializer for an input", _declare_node_outputs, output loop,
+  value-info/quantization emission rules), function stage, model stage.  They are executable in the model and
+  validated per generated proto inside Coq (wf p -> norm (ser (deser p)) = norm p) and against the implementation.
+
+Tie: see above; quick = 200 models + 67 mutated (20 kinds of unsupported constructs) + 50 graphs + 200 tensors +
+  200 value-infos + 40 backend/testdata seeds + corpus/C02 (witnesses of the fixed findings); every feature of the
+  quantifier is counted in evidence coverage["features"].  Gen/C02Gen.v: the two IR-version gates and the enum
+  members come from the source on every run (a changed gate changes wf, the generator's "supported" flag then
+  disagrees -> oracle -> violation; tried, caught).
+
+Modelled, not verified: protobuf presence/oneof/CopyFrom, dict order, sorted() on str, UTF-8 validity (a flag
+  computed by the converter), int()/str() on digit strings, ExternalDataInfo's key whitelist.  Not modelled
+  (model answers Raise OtherError = "outside the model", such inputs are not generated as supported): duplicated graph
+  or function input names, the IR < 10 experimental function value-info names "domain::function/value" in the main
+  graph, external offset/length that are not plain digit strings.  Abstraction: node outputs are keys of the scope
+  table (a key always equals the name of its value; proved as invariant scope_ok for inputs).
+
+Findings on the tree as first read (all reproduced on the real code; witnesses in known_witnesses()):
+  fixed c4d9dd5  function-input-value-info-dropped   (my proposed_fixes/C02-function-input-value-info.diff)
+  fixed 952a3c2  quantization-annotation-duplicated   (my proposed_fixes/C02-quantization-annotation-duplicated.diff)
+  fixed 86f4e6a  ref-graph-attr-crash                 (proposed_fixes/C02-ref-graph-attr-traversal.diff; committed variant)
+  fixed 66aa20a  tensorproto-metadata-duplicated      (orchestrator, before this module existed)
+  known          external-data-checksum-dropped       (no small repair: ExternalTensor has no slot for extra keys)
+  The model describes the fixed code; the witnesses are ordinary supported corpus cases now.
+  Upstream fixes 420823a / 5c8d56d (value_info without type/shape on an initializer is completed from the tensor;
+  a shape without type is serialized) landed while this was built: model, norm ("value-info is added for
+  initializers" now also completes an existing entry) and oracle follow them.
+
+Mutants tried (scratch worktree, VERIF_REPO), all reported VIOLATION with a concrete wf replay unless noted:
+  m1 doc_string of a value-info written only when a shape exists          caught (model!=impl, oracle)
+  m2 dimension denotation written only for integer dims                    caught
+  m3 _remove_trailing_outputs off by one (drops a named output)            caught
+  m4 revert of the tensor-metadata fix (duplicate entries)                 caught
+  m5 OptionalType loses its denotation                                      caught
+  m6 device-configuration gate `<=` instead of `<` (IR 11 loses them)       caught
+  m7 reference attribute doc_string not written                             caught
+  m8 quantization annotation of initializers not read                       caught
+  m9 node input lookup limited to the two innermost scopes                  NOT a C02 violation: the placeholder
+     value has the same name, to_proto(from_proto(p)) is unchanged (C03/C17 territory); check is rightly silent
+  m10 function overload not written                                          caught
+  m11 _declare_node_outputs ignores value_info                               caught
+  m12 _should_create_value_info_for_value ignores doc/metadata-only values   caught
+  m13 _MULTI_DEVICE_SUPPORTED_VERSION = 12 (translated constant)             caught
+  Shrinking keeps candidates supported by evaluating Coq's wf on each batch of shrink candidates, so a replay is
+  never an unsupported proto (an early version shrank to `sequence_type {}`, which raises on any tree).
 """
 
 from __future__ import annotations
